@@ -199,10 +199,28 @@ class BitEval:
         return [TOP] * (want or 8)
 
     def index_of(self, base, idx):
-        """byte index (relative to off) of base[idx] when base is the input buffer or a bound slice"""
+        """byte index (relative to off) of base[idx] when base is the input buffer, a bound slice, or a sub-slice
+        `&buf[off+a .. off+b]` / `&buf[off+a ..]` of the input buffer taken first (`let fixed = &rawdata[off..off+20]`)"""
+        base = P.strip_refs(base)
         while base[0] in ("deref", "ref"):
             base = base[1]
         li = self.cx.lin(idx)
+        if base[0] == "index" and base[2][0] == "agg" and (base[2][1].endswith("::Range") or base[2][1].endswith("::RangeFrom")) and li.is_const():
+            lo = self.index_of(base[1], base[2][2][0])
+            if lo is not None:
+                if base[2][1].endswith("::Range"):
+                    hi = self.index_of(base[1], base[2][2][1])
+                    if hi is not None and not (lo + li.k < hi):
+                        return None
+                return lo + li.k
+            return None
+        if base[0] == "call" and base[1] and re.search(r"Index<.*>>::index$|slice::index::.*::index$", base[1]) and len(base[2]) == 2 and li.is_const():
+            rng = P.strip_refs(base[2][1])
+            if rng[0] == "agg" and (rng[1].endswith("::Range") or rng[1].endswith("::RangeFrom")):
+                lo = self.index_of(base[2][0], rng[2][0])
+                if lo is not None:
+                    return lo + li.k
+            return None
         if base[0] == "arg":
             b = self.bind.get(base[1])
             if b == ("buf",):
@@ -272,9 +290,18 @@ def decode_struct(F, fn_path, struct_rx, bind=None, prefix="", depth=0):
         if sx[0] == "call" and sx[1] in F.fns and len(sx[2]) == 1 and depth < 3:
             # nested decoder over a sub-slice: X::from_bytes(&buf[off+a .. off+b])
             a = P.strip_refs(sx[2][0])
+            if a[0] == "call" and a[1] and re.search(r"Index<.*>>::index$|slice::index::.*::index$", a[1]) and len(a[2]) == 2:
+                # `&slice[a..b]` of a slice value is an Index::index call in MIR: same shape as the place projection
+                a = ("index", a[2][0], P.strip_refs(a[2][1]))
             if a[0] == "index" and a[2][0] == "agg" and a[2][1].endswith("::Range"):
                 lo = ev.lin_off(a[2][2][0]) if not bind.get("__off_zero") else ev.cx.lin(a[2][2][0]).k
                 hi = ev.lin_off(a[2][2][1]) if not bind.get("__off_zero") else ev.cx.lin(a[2][2][1]).k
+                inner_base = P.strip_refs(a[1])
+                if inner_base[0] in ("index", "call") and ev.cx.lin(a[2][2][0]).is_const() and ev.cx.lin(a[2][2][1]).is_const():
+                    # a sub-slice of a sub-slice taken earlier (`&fixed[12..16]` with fixed = &rawdata[off..off+20])
+                    base0 = ev.index_of(a[1], ("const", 0, "usize"))
+                    if base0 is not None:
+                        lo, hi = base0 + ev.cx.lin(a[2][2][0]).k, base0 + ev.cx.lin(a[2][2][1]).k
                 callee = F.fn(sx[1])
                 Bc = M.Body(callee)
                 pname = Bc.local_name(1)
